@@ -284,4 +284,37 @@ theorem valid_basepoint : EPt.basepoint.Valid := valid_ofAffine onCurve_B
 
 theorem erep_basepoint : ERep EPt.basepoint Bpt := erep_ofAffine rep_B
 
+/-! ## Validity, explicitly -/
+
+/-- A valid extended point denotes `toEd` of its affine image
+(`EPt.Valid e → RepExt (toEd e.toAffine _) X Y Z T`). -/
+theorem erep_toEd_toAffine {e : EPt} (he : e.Valid) :
+    ∃ h : onCurve e.toAffine = true, ERep e (toEd e.toAffine h) := by
+  obtain ⟨Q, hQ⟩ := he
+  have hr := rep_toAffine hQ
+  exact ⟨hr.on, by rw [hr.toEd_eq hr.on]; exact hQ⟩
+
+/-- Executable validity check (kernel-evaluable): `Z ≢ 0`, `XY ≡ ZT`, and the affine image is on
+the curve. -/
+def _root_.Dalek.Model.EPt.validB (e : EPt) : Bool :=
+  (e.Z % P != 0) && (fmul e.X e.Y == fmul e.Z e.T) && onCurve e.toAffine
+
+/-- **`validB` decides `Valid`.** -/
+theorem validB_iff (e : EPt) : e.validB = true ↔ e.Valid := by
+  unfold EPt.validB
+  rw [Bool.and_eq_true, Bool.and_eq_true, bne_iff_ne, beq_iff_cast (fmul_lt _ _) (fmul_lt _ _)]
+  simp only [cast_fmul]
+  constructor
+  · rintro ⟨⟨hZ, hT⟩, hon⟩
+    have hZ' : (e.Z : Fp) ≠ 0 := fun h => hZ ((cast_eq_zero_iff _).1 h)
+    refine ⟨toEd e.toAffine hon, hZ', ?_, ?_, hT⟩
+    · show ((fmul _ _ : Nat) : Fp) = _
+      rw [cast_fmul, cast_finv, div_eq_mul_inv]
+    · show ((fmul _ _ : Nat) : Fp) = _
+      rw [cast_fmul, cast_finv, div_eq_mul_inv]
+  · rintro ⟨Q, hQ⟩
+    refine ⟨⟨fun h => hQ.1 ((cast_eq_zero_iff _).2 h), hQ.2.2.2⟩, (rep_toAffine hQ).on⟩
+
+example : EPt.basepoint.validB = true := by decide +kernel
+
 end Dalek.Bridge
